@@ -188,3 +188,65 @@ Definition aliases_wf (T : name_tables) (A : alias_tables) : bool :=
   forallb (fun i => negb (nth (N.to_nat i) (at_ids A) 0 =? 0) && (nth (N.to_nat i) (at_ids A) 0 <? nt_count T)
                     && negb (strlen (alias_name_of A i) =? 0) && (strlen (alias_name_of A i) <=? nt_maxlen T))
           (nseq 0 (N.to_nat (at_count A))).
+
+(* ------------------------------------------------------------------ alias formatting (InstStringifyOptions::kAliases)
+   decode_to_buffer: when the suffix base is 0xFFF the formatted alias text follows the name in the string table, preceded by its length *)
+Definition decode_name_aliases (strtab : list N) (v : N) : str :=
+  if N.testbit v 31 then decode_small 6 v
+  else
+    let pb := N.land v 4095 in let ps := N.land (N.shiftr v 12) 15 in
+    let sb := N.land (N.shiftr v 16) 4095 in let ss := N.land (N.shiftr v 28) 7 in
+    if sb =? 4095 then
+      let pb' := pb + ps in
+      let ps' := nth (N.to_nat pb') strtab 0 in
+      substr strtab (pb' + 1) ps' ++ substr strtab sb ss
+    else substr strtab pb ps ++ substr strtab sb ss.
+
+Definition has_alias_format (v : N) : bool :=
+  negb (N.testbit v 31) && (N.land (N.shiftr v 16) 4095 =? 4095).
+
+Definition alias_entry_in_bounds (strtab_len : N) (strtab : list N) (v : N) : bool :=
+  if has_alias_format v then
+    let pb' := N.land v 4095 + N.land (N.shiftr v 12) 15 in
+    (pb' <? strtab_len) && (pb' + 1 + nth (N.to_nat pb') strtab 0 <=? strtab_len) && (nth (N.to_nat pb') strtab 0 <=? 32)
+  else true.
+
+Definition formatted_name_of (T : name_tables) (id : N) : str :=
+  decode_name_aliases (nt_strtab T) (nth (N.to_nat id) (nt_names T) 0).
+
+(* "cmov.b|nae|c" -> cmovb cmovnae cmovc ; "jb|jnae|jc" -> jb jnae jc *)
+Fixpoint split_on (c : N) (s : str) (cur : str) : list str :=
+  match s with
+  | [] => [rev cur]
+  | x :: r => if x =? c then rev cur :: split_on c r [] else split_on c r (x :: cur)
+  end.
+
+Fixpoint split_first (c : N) (s : str) (cur : str) : option (str * str) :=
+  match s with
+  | [] => None
+  | x :: r => if x =? c then Some (rev cur, r) else split_first c r (x :: cur)
+  end.
+
+Definition expand_alias_format (fmt : str) : list str :=
+  match split_first 46 fmt [] with
+  | Some (pre, alts) => map (fun a => pre ++ a) (split_on 124 alts [])
+  | None => split_on 124 fmt []
+  end.
+
+Definition str_eqb (a b : str) : bool := match cmp_str a b with Eq => true | _ => false end.
+
+(* ids that carry an alias format: every spelling of the format maps back to the id *)
+Definition alias_formats_roundtrip (T : name_tables) (A : alias_tables) : bool :=
+  forallb (fun id =>
+    if has_alias_format (nth (N.to_nat id) (nt_names T) 0) then
+      forallb (fun e => x86_string_to_inst_id T A e =? id) (expand_alias_format (formatted_name_of T id))
+    else true) (ids_of T).
+
+(* alias table entry i is one of the spellings of the format of its target id *)
+Definition alias_from_format (T : name_tables) (A : alias_tables) (i : N) : bool :=
+  let id := nth (N.to_nat i) (at_ids A) 0 in
+  has_alias_format (nth (N.to_nat id) (nt_names T) 0) &&
+  existsb (str_eqb (alias_name_of A i)) (expand_alias_format (formatted_name_of T id)).
+
+Definition aliases_without_format (T : name_tables) (A : alias_tables) : list N :=
+  filter (fun i => negb (alias_from_format T A i)) (nseq 0 (N.to_nat (at_count A))).
